@@ -13,6 +13,7 @@ import (
 	"time"
 
 	"go.temporal.io/server/api/adminservice/v1"
+	replicationv1 "go.temporal.io/server/api/replication/v1"
 	"go.temporal.io/server/client/history"
 	"go.temporal.io/server/common/log"
 	"go.temporal.io/server/common/log/tag"
@@ -36,6 +37,7 @@ func (l *vfCountingLogger) Info(msg string, tags ...tag.Tag) {}
 //
 //	N                         new observer + new servers
 //	R idx v                   ReportStreamValue(idx, v)
+//	WC                        the witness stream pair (well-formed, routing mode, up since N) must still carry a watermark and its acknowledgement
 //	H mode ok cc cs sc ss     StreamWorkflowReplicationMessages with metadata (values: text, "-" = absent); mode intra = routing mode,
 //	                          opened by a peer instance (intra-proxy marker) towards a shard that is local here
 func TestVerifObserver(t *testing.T) {
@@ -45,6 +47,9 @@ func TestVerifObserver(t *testing.T) {
 	var lg *vfCountingLogger
 	var client *vfAdminClient
 	sms := map[string]ShardManager{}
+	var witness *vrScenario
+	var witnessWM int64
+	vwSrc, vwTgt := history.ClusterShardID{ClusterID: 1234567, ShardID: 5003}, history.ClusterShardID{ClusterID: 1234570, ShardID: 5004}
 	servers := map[string]adminservice.AdminServiceServer{}
 	loggers := logging.NewLoggerProvider(log.NewNoopLogger(), config.NewMockConfigProvider(config.S2SProxyConfig{}))
 	lockState := func() string {
@@ -99,7 +104,9 @@ func TestVerifObserver(t *testing.T) {
 					scc, LCMParameters{LCM: 12, TargetShardCount: 4}, RoutingParameters{RoutingLocalShardCount: 4, DirectionLabel: "verif"},
 					loggers, sm, ctx)
 			}
-			mk := func(mode config.ShardCountMode) adminservice.AdminServiceServer { return mkWith(mode, nil, string(mode)) }
+			mk := func(mode config.ShardCountMode) adminservice.AdminServiceServer {
+				return mkWith(mode, nil, string(mode))
+			}
 			servers = map[string]adminservice.AdminServiceServer{
 				"default": mk(config.ShardCountDefault), "lcm": mk(config.ShardCountLCM), "routing": mk(config.ShardCountRouting)}
 			// routing mode of a multi-instance deployment (memberlist configured, so the intra-proxy manager exists; this
@@ -107,7 +114,70 @@ func TestVerifObserver(t *testing.T) {
 			servers["intra"] = mkWith(config.ShardCountRouting, &config.MemberlistConfig{NodeName: "verif-n0", BindAddr: "127.0.0.1", BindPort: 0, ProxyAddresses: map[string]string{}}, "intra")
 			servers["intra0"] = servers["routing"]
 			sms["intra0"] = sms[string(config.ShardCountRouting)]
+			// a well-formed routing-mode stream pair that stays up on the same shard manager while the other streams come
+			// and go (op WC checks that it still carries a watermark one way and its acknowledgement the other way)
+			if witness != nil {
+				witness.cancel()
+				for _, h := range []*vrHandler{witness.srcH[0], witness.tgtH[0]} {
+					h.stream.cancel()
+					<-h.done
+				}
+			}
+			wctx, wcancel := context.WithCancel(ctx)
+			witness = &vrScenario{t: t, ns: 1, nt: 1, sm: sms["routing"], lifetime: wctx, cancel: wcancel,
+				reverse: &vrReverseClient{streams: map[history.ClusterShardID][]*vfClientStream{}},
+				srcH:    make([]*vrHandler, 1), tgtH: make([]*vrHandler, 1)}
+			witness.srcH[0] = witness.open(vwSrc, vwTgt, 1)
+			witness.tgtH[0] = witness.open(vwTgt, vwSrc, 1)
+			witnessWM = 1000
+			time.Sleep(20 * time.Millisecond)
 			fmt.Fprintln(w, "N")
+		case "WC":
+			witnessWM += 10
+			res := "ok"
+			cs := witness.reverse.current(vwSrc)
+			if cs == nil {
+				fmt.Fprintln(w, "WC no-upstream")
+				continue
+			}
+			_ = witness.tgtH[0].stream.takeSent()
+			_ = cs.takeSent()
+			cs.recv <- vfItem[vfResp]{val: &vfResp{Attributes: &adminservice.StreamWorkflowReplicationMessagesResponse_Messages{
+				Messages: &replicationv1.WorkflowReplicationMessages{ExclusiveHighWatermark: witnessWM}}}}
+			var got int64
+			deadline := time.Now().Add(3 * time.Second)
+			for got == 0 && time.Now().Before(deadline) {
+				for _, m := range witness.tgtH[0].stream.takeSent() {
+					if m.GetMessages() != nil {
+						got = m.GetMessages().ExclusiveHighWatermark
+					}
+				}
+				if got == 0 {
+					time.Sleep(2 * time.Millisecond)
+				}
+			}
+			if got == 0 {
+				res = "stalled-watermark"
+			} else {
+				witness.tgtH[0].stream.recv <- vfItem[vfReq]{val: &vfReq{Attributes: &adminservice.StreamWorkflowReplicationMessagesRequest_SyncReplicationState{
+					SyncReplicationState: &replicationv1.SyncReplicationState{InclusiveLowWatermark: got}}}}
+				acked := false
+				deadline = time.Now().Add(3 * time.Second)
+				for !acked && time.Now().Before(deadline) {
+					for _, r := range cs.takeSent() {
+						if st := r.GetSyncReplicationState(); st != nil && st.InclusiveLowWatermark == witnessWM {
+							acked = true
+						}
+					}
+					if !acked {
+						time.Sleep(2 * time.Millisecond)
+					}
+				}
+				if !acked {
+					res = "stalled-ack"
+				}
+			}
+			fmt.Fprintf(w, "WC %s\n", res)
 		case "R":
 			idx, _ := strconv.ParseInt(f[1], 10, 64)
 			v, _ := strconv.ParseInt(f[2], 10, 64)
@@ -166,6 +236,12 @@ func TestVerifObserver(t *testing.T) {
 				}
 			}
 			client.mu.Lock()
+			client.preload = nil
+			if mode == "routing" {
+				// the serving cluster announces a watermark on the stream the pair's receiver opens, then ends it
+				client.preload = &vfResp{Attributes: &adminservice.StreamWorkflowReplicationMessagesResponse_Messages{
+					Messages: &replicationv1.WorkflowReplicationMessages{ExclusiveHighWatermark: 777}}}
+			}
 			if clientOK {
 				client.openErr = nil
 			} else {
